@@ -303,6 +303,11 @@ fn gen_honest(rng: &mut Rng, n: usize, ia_off: u64) -> Honest {
 /// Sign `entries` with the repo's own signing code.  One key per *AS* (entries sharing a local ISD-AS share
 /// the key and the key id of the first of them – the signing API resolves keys by ISD-AS).
 fn build_honest(rng: &mut Rng, entries: Vec<AsEntry>, with_key_ids: bool, mac_update: bool) -> Honest {
+    build_honest_at(rng, entries, with_key_ids, mac_update, None)
+}
+
+/// as `build_honest`, with the segment's (timestamp, segment id) given (`None`: drawn, boundary values 1 in 5)
+fn build_honest_at(rng: &mut Rng, entries: Vec<AsEntry>, with_key_ids: bool, mac_update: bool, info: Option<(u32, u16)>) -> Honest {
     let n = entries.len();
     let owner: Vec<usize> = (0..n).map(|i| (0..=i).find(|&j| entries[j].local == entries[i].local).unwrap()).collect();
     let own_keys: Vec<SigningKey> = (0..n).map(|_| gen_key(rng)).collect();
@@ -317,6 +322,7 @@ fn build_honest(rng: &mut Rng, entries: Vec<AsEntry>, with_key_ids: bool, mac_up
     }
     let ts = if rng.chance(1, 5) { *rng.pick(&[0u32, 1, u32::MAX]) } else { rng.next() as u32 };
     let seg_id = if rng.chance(1, 5) { *rng.pick(&[0u16, 65535]) } else { rng.next() as u16 };
+    let (ts, seg_id) = info.unwrap_or((ts, seg_id));
     let sig_ts = rng.next() as u32;
     let idx_of = |ia: IsdAsn| by_ia[&ia.to_u64()];
     let seg = if !mac_update {
@@ -388,6 +394,43 @@ fn info_encodings(ts: u32, seg_id: u16) -> Vec<(&'static str, Vec<u8>)> {
 /// `info` are the segment-info bytes the signer sends (`info_bytes`; canonical when `None`).
 /// The verifier's value is obtained from the RPC form.
 fn reference_signed(rng: &mut Rng, entries: &[AsEntry], ts: u32, seg_id: u16, info_bytes: Option<Vec<u8>>) -> Option<Honest> {
+    reference_signed_x(rng, entries, ts, seg_id, info_bytes).ok()
+}
+
+/// what the receiver did with a positionally signed segment that it could not turn into a value
+struct RefFail {
+    why: String,
+    /// the message as sent, with the public key of every position (None: the signing itself failed)
+    sent: Option<(RpcSeg, Vec<VerifyingKey>)>,
+}
+impl RefFail {
+    fn case(&self, ts: u32, seg_id: u16) -> serde_json::Value {
+        match &self.sent {
+            None => json!({"why": self.why, "timestamp": ts, "segment_id": seg_id}),
+            Some((rpc, keys)) => {
+                let enc = hex(&rpc.encode_to_vec());
+                let ks = keys.iter().map(|k| hex(k.to_encoded_point(true).as_bytes())).collect::<Vec<_>>();
+                json!({"why": self.why, "timestamp": ts, "segment_id": seg_id, "segment_info_sent": hex(&rpc.segment_info),
+                       "entries": rpc.as_entries.len(), "rpc": enc, "keys": ks,
+                       "line": format!("seg-expect-case accept {} {}", enc, ks.join(" "))})
+            }
+        }
+    }
+}
+
+fn reference_signed_x(rng: &mut Rng, entries: &[AsEntry], ts: u32, seg_id: u16, info_bytes: Option<Vec<u8>>) -> Result<Honest, RefFail> {
+    let r = reference_signed_msg(rng, entries, ts, seg_id, info_bytes).ok_or(RefFail { why: "signing failed".into(), sent: None })?;
+    let (rpc, items, keys, table) = r;
+    let sent = || Some((rpc.clone(), keys.iter().map(|k| *k.verifying_key()).collect::<Vec<_>>()));
+    match from_rpc_seg(rpc.clone()) {
+        Ok(Ok(seg)) => Ok(Honest { seg, rpc, set: SignedSet { items }, keys, table, with_key_ids: true }),
+        Ok(Err(e)) => Err(RefFail { why: format!("try_from_rpc: {e}"), sent: sent() }),
+        Err(m) => Err(RefFail { why: format!("try_from_rpc panicked: {m}"), sent: sent() }),
+    }
+}
+
+#[allow(clippy::type_complexity)]
+fn reference_signed_msg(rng: &mut Rng, entries: &[AsEntry], ts: u32, seg_id: u16, info_bytes: Option<Vec<u8>>) -> Option<(RpcSeg, Vec<(Vec<u8>, Vec<u8>, Vec<u8>, VerifyingKey)>, Vec<SigningKey>, KeyTable)> {
     let n = entries.len();
     let owner: Vec<usize> = (0..n).map(|i| (0..=i).find(|&j| entries[j].local == entries[i].local).unwrap()).collect();
     let own_keys: Vec<SigningKey> = (0..n).map(|_| gen_key(rng)).collect();
@@ -411,8 +454,7 @@ fn reference_signed(rng: &mut Rng, entries: &[AsEntry], ts: u32, seg_id: u16, in
         ad.extend_from_slice(&sm.signature);
         rpc.as_entries.push(pb::control_plane::v1::AsEntry { signed: Some(sm.into_rpc()), unsigned: None });
     }
-    let seg = from_rpc_seg(rpc.clone()).ok()?.ok()?;
-    Some(Honest { seg, rpc, set: SignedSet { items }, keys, table, with_key_ids: true })
+    Some((rpc, items, keys, table))
 }
 
 // ------------------------------------------------------------------------------------------------
@@ -645,9 +687,9 @@ fn check_positions(
                              "received_info": hex(&vr.raw_info),
                              "keys": (0..var.as_entries.len()).map(|j| offered_key(var, j, &h.table, None).map(|k| hex(k.to_encoded_point(true).as_bytes())).unwrap_or("-".into())).collect::<Vec<_>>(),
                              "rpc": hex(&RpcSeg { segment_info: vr.raw_info.clone(), as_entries: var.clone().into_rpc().as_entries }.encode_to_vec())});
-        if i == 0 && (kind == "info-encoding" || kind == "info-reencoded") && std::env::var("HX_EMIT").is_ok() {
+        if i == 0 && (kind == "info-encoding" || kind == "info-reencoded" || kind == "default-info") && std::env::var("HX_EMIT").is_ok() {
             let c = case();
-            eprintln!("EMIT {kind} | {detail} | seg-expect-case {} {} {}", if kind == "info-encoding" { "accept" } else { "reject" }, c["rpc"].as_str().unwrap(),
+            eprintln!("EMIT {kind} | {detail} | seg-expect-case {} {} {}", if kind == "info-reencoded" { "reject" } else { "accept" }, c["rpc"].as_str().unwrap(),
                       c["keys"].as_array().unwrap().iter().map(|k| k.as_str().unwrap().to_string()).collect::<Vec<_>>().join(" "));
         }
         if let Some(m) = &v.model {
@@ -693,6 +735,157 @@ fn check_positions(
 
 fn from_rpc_seg(rpc: pb::control_plane::v1::PathSegment) -> Result<Result<SignedPathSegment, FromRpcError>, String> {
     catch(|| SignedPathSegment::try_from_rpc(rpc))
+}
+
+/// proto3 reading of a `SegmentInformation { int64 timestamp = 1; uint32 segment_id = 2 }` message, written out
+/// from the wire-format rules (independent of prost): a message is a sequence of (tag, value) records, a scalar
+/// field that does not occur has its default value 0 (so the EMPTY byte string is the message (0, 0), and it is
+/// what every canonical encoder writes for it), the last occurrence of a field wins, unknown fields are skipped
+fn proto3_info_fields(b: &[u8]) -> Option<(u64, u64)> {
+    fn varint(b: &[u8], i: &mut usize) -> Option<u64> {
+        let mut v = 0u64;
+        for k in 0..10 {
+            let x = *b.get(*i)?;
+            *i += 1;
+            v |= ((x & 0x7f) as u64) << (7 * k);
+            if x & 0x80 == 0 {
+                return Some(v);
+            }
+        }
+        None
+    }
+    let (mut ts, mut id, mut i) = (0u64, 0u64, 0usize);
+    while i < b.len() {
+        let tag = varint(b, &mut i)?;
+        let (field, wt) = (tag >> 3, tag & 7);
+        if field == 0 || ((field == 1 || field == 2) && wt != 0) {
+            return None;
+        }
+        match wt {
+            0 => {
+                let v = varint(b, &mut i)?;
+                if field == 1 { ts = v } else if field == 2 { id = v & 0xffff_ffff }
+            }
+            1 | 5 => {
+                i += if wt == 1 { 8 } else { 4 };
+                if i > b.len() { return None }
+            }
+            2 => {
+                let l = varint(b, &mut i)?;
+                i = i.checked_add(usize::try_from(l).ok()?)?;
+                if i > b.len() { return None }
+            }
+            _ => return None,
+        }
+    }
+    Some((ts, id))
+}
+
+/// Spec, on the implementation alone (second sentence of the property + the first one for the receiver): an
+/// authentic segment VALUE `h.seg` → `into_rpc` → `try_from_rpc` is the same value, the segment info that
+/// travels reads (proto3) as the value's (timestamp, segment id) and is the byte string the entries were signed
+/// over, and every authentic entry validates on the RECEIVED value.  Segments whose info fields take the proto3
+/// default value (timestamp 0 and / or segment id 0 – the field is then absent from the canonical encoding, for
+/// (0, 0) the info is the empty byte string) are reported under their own key.
+fn check_value_roundtrip(kind: &str, detail: &str, h: &Honest, lean: &mut Lean, rep: &mut Report, tally: &mut Tally) {
+    let (ts, id) = (h.seg.info().timestamp, h.seg.info().segment_id);
+    let key = if ts == 0 || id == 0 { "C18:segment-roundtrip:default-info" } else { "C18:segment-roundtrip" };
+    let n = h.seg.as_entries.len();
+    let keys: Vec<String> = h.keys.iter().map(|k| hex(k.verifying_key().to_encoded_point(true).as_bytes())).collect();
+    let sent = match catch(|| h.seg.clone().into_rpc()) {
+        Ok(s) => s,
+        Err(m) => {
+            rep.spec_fail("C18:panic:segment-rpc", &format!("into_rpc panicked: {m}"), json!({"kind": kind, "detail": detail, "segment": seg_brief(&h.seg)}));
+            return;
+        }
+    };
+    let enc = hex(&sent.encode_to_vec());
+    rep.case(&format!("value-roundtrip|{kind}|{enc}"), n > 0);
+    let case = || json!({"kind": kind, "detail": detail, "timestamp": ts, "segment_id": id, "segment": seg_brief(&h.seg),
+                         "segment_info_sent": hex(&sent.segment_info), "rpc": enc, "keys": keys,
+                         "line": format!("seg-expect-case accept {} {}", enc, keys.join(" "))});
+    if sent.segment_info != h.rpc.segment_info {
+        rep.spec_fail("C18:segment-roundtrip:info-bytes", "into_rpc does not send the segment-info bytes the entries were signed over", case());
+    }
+    if proto3_info_fields(&sent.segment_info) != Some((ts as u64, id as u64)) {
+        rep.spec_fail("C18:segment-roundtrip:info-fields", &format!("the segment info sent by into_rpc does not read (proto3) as the value's timestamp {ts} and segment id {id}"), case());
+    }
+    let info_txt = if sent.segment_info.is_empty() { "the empty byte string, the canonical proto3 encoding of (0, 0)".to_string() } else { format!("{} ({} bytes)", hex(&sent.segment_info), sent.segment_info.len()) };
+    match from_rpc_seg(sent.clone()) {
+        Err(m) => rep.spec_fail("C18:panic:segment-rpc", &format!("try_from_rpc panicked on into_rpc output: {m}"), case()),
+        Ok(Err(e)) => rep.spec_fail(
+            key,
+            &format!("a correctly signed segment of {n} entries with timestamp {ts} and segment id {id} does not survive value → into_rpc → try_from_rpc: the receiver answers '{e}' instead of the same value, so its authentic entries can never be validated (segment info on the wire: {info_txt}; {kind}: {detail})"),
+            case(),
+        ),
+        Ok(Ok(back)) => {
+            if back != h.seg {
+                rep.spec_fail(key, &format!("try_from_rpc(into_rpc(seg)) != seg for a correctly signed segment with timestamp {ts} and segment id {id} ({kind}: {detail}): received {}", canon_seg(&back).chars().take(120).collect::<String>()), case());
+            }
+            rep.hit(&format!("value roundtrip checked ({kind})"));
+            // the receiver validates what it received
+            let var = Var { seg: back, raw_info: sent.segment_info.clone() };
+            let all: Vec<usize> = (0..n).collect();
+            check_positions(kind, detail, h, &h.set, &var, &all, None, Some(lean), rep, tally);
+        }
+    }
+}
+
+/// Segments whose info fields take proto3 default values: timestamp 0 and / or segment id 0 (both 0: the
+/// canonical info is the empty byte string), with the neighbouring boundary values; signed by both signing entry
+/// points of the repo and by the positional reference signer (canonical bytes, and for (0, 0) every equivalent
+/// non-canonical encoding).  Deterministic in everything but keys and entry contents.
+fn default_info_stream(rng: &mut Rng, foreign: &Honest, lean: &mut Lean, rep: &mut Report, tally: &mut Tally, thorough: bool) {
+    let x_ts = (rng.next() as u32) | 1;
+    let x_id = (rng.next() as u16) | 1;
+    let combos: [(u32, u16); 9] = [(0, 0), (0, x_id), (x_ts, 0), (0, 1), (1, 0), (0, u16::MAX), (u32::MAX, 0), (0, 0), (1, 1)];
+    for (k, &(ts, id)) in combos.iter().enumerate() {
+        let n = 1 + k % 3;
+        let entries: Vec<AsEntry> = (0..n).map(|i| gen_entry(rng, 400 + i as u64)).collect();
+        let o = SegOpts { exhaustive_flips: false, sampled_flips_per_blob: if thorough { 12 } else { 3 }, model_every: 1 };
+        // the repo's signing code: try_into_signed_segment / SignedPathSegment::new (with MAC update)
+        for mac_update in [false, true] {
+            let detail = format!("timestamp {ts}, segment id {id}, signed by {}", if mac_update { "SignedPathSegment::new" } else { "try_into_signed_segment" });
+            let h = build_honest_at(rng, entries.clone(), k % 2 == 0, mac_update, Some((ts, id)));
+            rep.hit(&format!("default-info segment ts{} id{} entries={n}", if ts == 0 { "=0" } else { "≠0" }, if id == 0 { "=0" } else { "≠0" }));
+            if h.seg.info().encoded.is_empty() {
+                rep.hit("default-info segment: info.encoded is the empty byte string");
+            }
+            check_value_roundtrip("default-info", &detail, &h, lean, rep, tally);
+            if (ts, id) == (0, 0) || thorough {
+                seg_stream_one(&h, foreign, rng, lean, rep, tally, &o);
+            }
+        }
+        // a conforming remote signer: canonical bytes (for (0, 0): nothing), received over RPC
+        let encs: Vec<(&'static str, Vec<u8>)> = if (ts, id) == (0, 0) { info_encodings(0, 0) } else { info_encodings(ts, id).into_iter().take(1).collect() };
+        for (what, bytes) in encs {
+            if proto3_info_fields(&bytes) != Some((ts as u64, id as u64)) {
+                rep.notes.push(format!("harness: info encoding '{what}' of ({ts}, {id}) does not read back as such"));
+                continue;
+            }
+            let detail = format!("timestamp {ts}, segment id {id}, signed by position over the info bytes {} ({what})", if bytes.is_empty() { "-".to_string() } else { hex(&bytes) });
+            match reference_signed_x(rng, &entries, ts, id, Some(bytes.clone())) {
+                Ok(hx) => {
+                    rep.hit(&format!("default-info reference-signed segment, info encoding: {what}"));
+                    if hx.seg.info().timestamp != ts || hx.seg.info().segment_id != id {
+                        rep.spec_fail("C18:segment-roundtrip:default-info", &format!("a received segment info that reads as ({ts}, {id}) is converted to ({}, {})", hx.seg.info().timestamp, hx.seg.info().segment_id), json!({"info": hex(&bytes), "what": what}));
+                    }
+                    let all: Vec<usize> = (0..n).collect();
+                    check_positions("default-info", &detail, &hx, &hx.set, &hx.var(), &all, None, Some(&mut *lean), rep, tally);
+                    check_value_roundtrip("default-info", &detail, &hx, lean, rep, tally);
+                    if (ts, id) == (0, 0) && (what == "canonical" || thorough) {
+                        seg_stream_one(&hx, foreign, rng, lean, rep, tally, &o);
+                    }
+                }
+                Err(f) => rep.spec_fail(
+                    "C18:segment-roundtrip:default-info",
+                    &format!("a segment of {n} entries correctly signed by position over a valid protobuf segment info that reads as timestamp {ts}, segment id {id} ({what}: {}) is refused by the receiver ({}): its authentic entries can never be validated",
+                             if bytes.is_empty() { "the empty byte string".to_string() } else { hex(&bytes) }, f.why),
+                    f.case(ts, id),
+                ),
+            }
+        }
+    }
 }
 
 fn all_perms(n: usize) -> Vec<Vec<usize>> {
@@ -2181,7 +2374,20 @@ fn run_corpus_line(l: &str, lean: &mut Lean, rep: &mut Report) -> bool {
             let Ok(r) = RpcSeg::decode(b.as_slice()) else { return false };
             let keys: Vec<Option<VerifyingKey>> = it.map(|k| unhex(k).and_then(|b| VerifyingKey::from_sec1_bytes(&b).ok())).collect();
             check_segrpc("corpus", &r, lean, rep);
-            let Some(var) = conv(r) else { return false };
+            let (n_sent, info_sent) = (r.as_entries.len(), r.segment_info.clone());
+            let Some(var) = conv(r) else {
+                // an authentic segment the receiver cannot even turn into a value can never be validated
+                if expect && keys.len() == n_sent && proto3_info_fields(&info_sent).is_some() {
+                    let key = if matches!(proto3_info_fields(&info_sent), Some((0, _)) | Some((_, 0))) { "C18:segment-roundtrip:default-info" } else { "C18:segment-roundtrip" };
+                    rep.case(&format!("corpus-expect|{l}|unconvertible"), true);
+                    rep.spec_fail(key, &format!("corpus: an authentic segment ({n_sent} entries, segment info {}) is refused by try_from_rpc: its entries can never be validated",
+                                                if info_sent.is_empty() { "the empty byte string = (0, 0)".to_string() } else { hex(&info_sent) }),
+                                   json!({"line": l, "segment_info_received": hex(&info_sent), "reads_as_timestamp_segment_id": proto3_info_fields(&info_sent).map(|(a, b)| vec![a, b]),
+                                          "entries": n_sent, "conversion": from_rpc_seg(RpcSeg::decode(unhex(l.split_whitespace().nth(2).unwrap_or("")).unwrap_or_default().as_slice()).unwrap_or_default()).ok().and_then(|r| r.err()).map(|e| e.to_string())}));
+                    return true;
+                }
+                return false;
+            };
             if keys.len() != var.seg.as_entries.len() {
                 return false;
             }
@@ -2335,16 +2541,19 @@ fn main() {
         let encs = info_encodings(ts, seg_id);
         let (what, bytes) = encs[k % encs.len()].clone();
         rep.hit(&format!("reference-signed segment, info encoding: {what}"));
-        match reference_signed(&mut rng, &entries, ts, seg_id, Some(bytes.clone())) {
-            Some(hx) => {
+        match reference_signed_x(&mut rng, &entries, ts, seg_id, Some(bytes.clone())) {
+            Ok(hx) => {
                 let all: Vec<usize> = (0..n).collect();
                 check_positions("info-encoding", what, &hx, &hx.set, &hx.var(), &all, None, Some(&mut lean), &mut rep, &mut tally);
                 let o = SegOpts { exhaustive_flips: k < 2 && args.thorough(), sampled_flips_per_blob: args.scale(4, 16), model_every: 1 };
                 seg_stream_one(&hx, &f, &mut rng, &mut lean, &mut rep, &mut tally, &o);
             }
-            None => rep.spec_fail("C18:segment-roundtrip", &format!("a segment with a valid protobuf segment info ({what}) does not convert from RPC"), json!({"info": hex(&bytes)})),
+            Err(fl) => rep.spec_fail("C18:segment-roundtrip", &format!("a segment with a valid protobuf segment info ({what}: {}) does not convert from RPC ({})", hex(&bytes), fl.why), fl.case(ts, seg_id)),
         }
     }
+    // --- segments whose info fields take proto3 default values (timestamp 0 / segment id 0 / both: the canonical
+    //     info of (0, 0) is the empty byte string): value → RPC → value, validation on the received value
+    default_info_stream(&mut rng, &f, &mut lean, &mut rep, &mut tally, args.thorough());
     rep.notes.push(format!("seg stream done at {:.1}s: {} validations, {} compared with the model", t0.elapsed().as_secs_f32(), tally.validations, tally.model_compared));
     rep.hit_n("entry validations on the implementation", tally.validations);
     rep.hit_n("entry validations compared with the model", tally.model_compared);
